@@ -19,7 +19,7 @@
 (*       values: V[tok] = [ip, dg] is the exact decimal expansion          *)
 (*       ip.d1d2...d15 and a NET cell is the number of 1e-4 units.         *)
 (* DOCUMENT one record type per format, listing what the format lists, in  *)
-(*       the order the format prescribes (see WriteBIF etc.).                  *)
+(*       the order the format prescribes (see WriteBIF etc.).     *)
 (*                                                                         *)
 (* Write(fmt, m, V) is the document the format prescribes for m,           *)
 (* Read(fmt, doc) the model a document denotes, Canon(fmt, m, V) the model *)
